@@ -3,7 +3,7 @@
    total order (C06_element_orders gives the two instances the checks run at). *)
 From Coq Require Import Sorting.Permutation Sorting.Sorted.
 From EsVerif.Common Require Import Base.
-From EsVerif.C06 Require Import Model Spec Lemmas MatchProofs DedupProofs Proofs Forms FormsProofs Skel Gen Tie.
+From EsVerif.C06 Require Import Model Spec Lemmas MatchProofs DedupProofs Proofs Forms FormsProofs Skel Gen Tie PromoteProofs.
 Local Open Scope nat_scope.
 
 (* integers (and order-embedded floats) and code-point strings are total orders *)
@@ -302,3 +302,39 @@ Example C06_nonvacuous_round2 :
   /\ group_of 2 [2; 2; 0] [0; 1; 4] = positions_of zeqb 2%Z [2; 2; 7; -1; 3]%Z
   /\ match_g zltb zeqb gen_match ClsNum false (argsort zltb [3; 1; 2]%Z) [3; 1; 2]%Z [2; 2; 7; -1; 3]%Z = Ok ([2; 2; 0], [0; 1; 4]).
 Proof. repeat split; reflexivity. Qed.
+
+(* ======================================================================================
+   Round 2b.  Mixed signedness at 64 bits (uint64 against a signed integer kind): numpy promotes
+   the pair to float64 inside np.searchsorted, so the search compares binary64 roundings
+   ([round53]) while np.unique, argsort, max and == stay exact ([match_z true]).  The full
+   statement is REFUTED there (matches are lost; no unequal pair is ever returned because the
+   equality filter is exact) and PROVED outside the known class
+   C06.kf_mixed_sign_above_2p53 = mixed pair with some element not exactly representable in
+   binary64 (Spec.kf_mixed_sign_above_2p53).
+   ====================================================================================== *)
+Theorem C06_match_mixed_refuted :
+  exists a1 a2 o, NoDup a1 /\ a1 <> [] /\ a2 <> []
+    /\ kf_mixed_sign_above_2p53 true a1 a2 = true
+    /\ match_z true false false a1 a2 = Ok o /\ ~ match_ok a1 a2 o.
+Proof. exact match_z_mixed_refuted. Qed.
+
+Theorem C06_match_outside_known : forall mixed str p (a1 a2 : list Z),
+  kf_mixed_sign_above_2p53 mixed a1 a2 = false ->
+  NoDup a1 -> a1 <> [] -> a2 <> [] -> (p = true -> sorted zltb a1) ->
+  (exists o, match_z mixed str p a1 a2 = Ok o /\ match_ok a1 a2 o)
+  /\ (exists o, match_multi_z mixed str p a1 a2 = Ok o /\ match_ok a1 a2 o).
+Proof. exact match_z_outside_known. Qed.
+
+(* the promoted search is the exact search whenever both orders agree on (element of the first,
+   element of the second array) - any element type *)
+Theorem C06_match_promoted_ext : forall A (sltb ltb eqb : A -> A -> bool) str p st (a1 a2 : list A),
+  (forall x v, In x a1 -> In v a2 -> sltb x v = ltb x v) ->
+  match_with2 sltb ltb eqb str p st a1 a2 = match_with ltb eqb str p st a1 a2.
+Proof. exact match_with2_ext. Qed.
+
+Example C06_nonvacuous_round2b :
+  round53 9007199254740993 = 9007199254740992%Z /\ round53 9007199254740995 = 9007199254740996%Z
+  /\ round53 (-18446744073709551615) = (-18446744073709551616)%Z /\ round53 9007199254740992 = 9007199254740992%Z
+  /\ kf_mixed_sign_above_2p53 true [5; 9007199254740992]%Z [7; -3]%Z = false
+  /\ match_z true false false [5; 9007199254740992]%Z [7; -3; 9007199254740992]%Z = Ok ([1], [2]).
+Proof. repeat split; vm_compute; reflexivity. Qed.
